@@ -553,16 +553,14 @@ class CDSInterval(AbstractFeatureInterval):
         Convenience function to take a pair of chromosome coordinates and return new coordinates that contain only
         full codons.
         """
-
-        if chromosome_start < self.chromosome_location.start:
-            chromosome_start = self.start
-        if chromosome_end > self.chromosome_location.end:
-            chromosome_end = self.end
-        cds_interval = self.sequence_interval_to_cds(chromosome_start, chromosome_end, Strand.PLUS)
-        adjusted_cds_start = cds_interval.start - (cds_interval.start % 3)
-        adjusted_cds_end = cds_interval.end - (cds_interval.end % -3)
-        chromosome_interval = self.cds_interval_to_sequence(adjusted_cds_start, adjusted_cds_end, Strand.PLUS)
-        return chromosome_interval.start, chromosome_interval.end
+        # expand to the codons of the actual reading frame (start frame offsets and frameshifts included)
+        # that overlap the window, rather than to multiples of 3 in raw CDS coordinates
+        window = SingleInterval(chromosome_start, chromosome_end, self.strand, self.chromosome_location.parent)
+        for codon_location in self.chromosome_codon_locations:
+            if codon_location.has_overlap(window):
+                chromosome_start = min(chromosome_start, codon_location.start)
+                chromosome_end = max(chromosome_end, codon_location.end)
+        return chromosome_start, chromosome_end
 
     def scan_chunk_relative_codon_locations(
         self,
